@@ -245,7 +245,8 @@ Definition c15_run (v : val) : val :=
 Definition c07_kind (v : val) : kind :=
   let c := vint (vnth 0 v) in
   if c =? 0 then KBool else if c =? 1 then KIntOrNone else if c =? 2 then KIntDefault (vint (vnth 1 v))
-  else if c =? 3 then KStrOrNone else if c =? 4 then KStr else if c =? 5 then KList else KUnknown.
+  else if c =? 3 then KStrOrNone else if c =? 4 then KStr else if c =? 5 then KList
+  else if c =? 6 then KUrl else if c =? 7 then KErrors else if c =? 8 then KAst else if c =? 9 then KDrm else KUnknown.
 Definition c07_value (v : val) : value :=
   let c := vint (vnth 0 v) in
   if c =? 0 then VBool (0 <? vint (vnth 1 v))
@@ -253,6 +254,13 @@ Definition c07_value (v : val) : value :=
   else if c =? 2 then VInt (vint (vnth 1 v))
   else if c =? 3 then VOptStr (match vnth 1 v with VL [VL s] => Some (map vint s) | _ => None end)
   else if c =? 4 then VStr (vints (vnth 1 v))
+  else if c =? 6 then VErrs (map (fun e => (vint (vnth 0 e), vint (vnth 1 e))) (vlist (vnth 1 v)))
+  else if c =? 7 then VSym (vints (vnth 1 v))
+  else if c =? 8 then
+    let f := vnth 1 v in
+    VDt {| d_year := vint (vnth 0 f); d_month := vint (vnth 1 f); d_day := vint (vnth 2 f); d_hour := vint (vnth 3 f);
+           d_min := vint (vnth 4 f); d_sec := vint (vnth 5 f); d_us := vint (vnth 6 f); d_off := as_opt_int (vnth 7 f) |}
+  else if c =? 9 then VDrm (map (fun e => (vint (vnth 0 e), (vb (vnth 1 e), vb (vnth 2 e), vb (vnth 3 e)))) (vlist (vnth 1 v)))
   else VList (map vints (vlist (vnth 1 v))).
 Definition c07_value_out (x : value) : val :=
   match x with
@@ -263,6 +271,11 @@ Definition c07_value_out (x : value) : val :=
   | VOptStr (Some s) => VL [VI 3; VL [of_ints s]]
   | VStr s => VL [VI 4; of_ints s]
   | VList l => VL [VI 5; VL (map of_ints l)]
+  | VErrs l => VL [VI 6; VL (map (fun e => VL [VI (fst e); VI (snd e)]) l)]
+  | VSym t => VL [VI 7; of_ints t]
+  | VDt d => VL [VI 8; VL [VI (d_year d); VI (d_month d); VI (d_day d); VI (d_hour d); VI (d_min d); VI (d_sec d); VI (d_us d);
+                           vopt_int (d_off d)]]
+  | VDrm l => VL [VI 9; VL (map (fun e => match e with (sy, (c1, c2, c3)) => VL [VI sy; vbool c1; vbool c2; vbool c3] end) l)]
   end.
 Definition c07_run (v : val) : val :=
   let mode := vint (vnth 0 v) in
